@@ -103,6 +103,16 @@ def sites(tree):
             out.append((path, "raisewrong", 0))
         if isinstance(node, ast.ExceptHandler) and node.type is not None and isinstance(node.type, (ast.Name, ast.Attribute)):
             out.append((path, "exceptswap", 0))
+        # asyncio operators: an awaited call not awaited, a sleep shortened to 0, a task awaited in place, a wait dropped
+        if isinstance(node, ast.Expr) and isinstance(node.value, ast.Await):
+            out.append((path, "unawait", 0))
+            inner = node.value.value
+            if isinstance(inner, ast.Call) and ast.unparse(inner.func).endswith("sleep") and inner.args:
+                out.append((path, "sleepzero", 0))
+        if isinstance(node, ast.Assign) and isinstance(node.value, ast.Await):
+            inner = node.value.value
+            if isinstance(inner, ast.Call) and ast.unparse(inner.func).endswith("sleep") and inner.args:
+                out.append((path, "sleepzero", 0))
         # ordering operators: a deferred call made directly, a direct notification deferred, two neighbouring statements swapped
         if isinstance(node, ast.Expr) and isinstance(node.value, ast.Call):
             c = node.value
@@ -218,6 +228,13 @@ def mutate(src, path, kind, var):
     elif kind == "argswap":
         desc = "swap first two arguments of " + ast.unparse(node.func)[:40]
         node.args[0], node.args[1] = node.args[1], node.args[0]
+    elif kind == "unawait":
+        desc = "not awaited: " + ast.unparse(node.value.value)[:50]
+        node.value = node.value.value
+    elif kind == "sleepzero":
+        call = node.value.value
+        desc = "sleep(0) instead of " + ast.unparse(call)[:50]
+        call.args[0] = ast.Constant(value=0)
     elif kind == "retnone":
         desc = "return None instead of " + ast.unparse(node.value)[:50]
         node.value = ast.Constant(value=None)
